@@ -488,9 +488,15 @@ func randUnknown(r *core.Rng, q string) unknownProp {
 		if r.Bool() {
 			item = "<rdf:li " + strings.Join(as, " ") + "/>"
 		}
-		prop := r.PickStr("xmpMM:Pantry", "xmpMM:Ingredients", "foo:Parts", "photoshop:DocumentAncestors")
+		prop := r.PickStr("xmpMM:Pantry", "xmpMM:Ingredients", "foo:Parts", "photoshop:DocumentAncestors", "xmpMM:History")
 		cont := r.PickStr("Bag", "Seq")
-		return unknownProp{text: fmt.Sprintf("<%s><rdf:%s>%s</rdf:%s></%s>", prop, cont, strings.Repeat(item, r.Range(1, 3)), cont, prop)}
+		n := r.Range(1, 3)
+		if r.Chance(1, 5) {
+			// a long edit history: hundreds of items, none nested deeper than the first
+			n = r.Pick(255, 256, 257, 300, 700)
+			item = "<rdf:li stEvt:action=" + q + "saved" + q + " stEvt:when=" + q + "2020-01-02T03:04:05" + q + "/>"
+		}
+		return unknownProp{text: fmt.Sprintf("<%s><rdf:%s>%s</rdf:%s></%s>", prop, cont, strings.Repeat(item, n), cont, prop)}
 	}
 	if r.Bool() {
 		aq := q
